@@ -145,6 +145,9 @@ type condAction struct {
 	pred func(next *Event) bool
 	fn   func()
 	done bool
+	// repeat: fires at every quiescent point whose last delivered event satisfies pred (once per event)
+	repeat  bool
+	lastSeq int
 }
 
 type Stats struct {
@@ -206,6 +209,12 @@ func (k *Kernel) AtSeq(n int, name string, fn func()) {
 // pred (evaluated on the last completed event) holds.
 func (k *Kernel) When(name string, pred func(last *Event) bool, fn func()) {
 	k.condActions = append(k.condActions, &condAction{name: name, pred: pred, fn: fn})
+}
+
+// WhenEvery is When without the one-shot limit: fn runs at every quiescent
+// point whose last completed event satisfies pred, once per such event.
+func (k *Kernel) WhenEvery(name string, pred func(last *Event) bool, fn func()) {
+	k.condActions = append(k.condActions, &condAction{name: name, pred: pred, fn: fn, repeat: true, lastSeq: -1})
 }
 
 // Halt freezes the world: no goroutine is released any more.
@@ -412,8 +421,15 @@ func (k *Kernel) Run(until time.Duration) string {
 		}
 		fired := false
 		for _, ca := range k.condActions {
-			if !ca.done && ca.pred(k.lastDelivered()) {
-				ca.done = true
+			last := k.lastDelivered()
+			if ca.repeat {
+				if last == nil || last.Seq == ca.lastSeq {
+					continue
+				}
+				ca.lastSeq = last.Seq // pred sees every event once
+			}
+			if !ca.done && ca.pred(last) {
+				ca.done = !ca.repeat
 				k.envEvent(ca.name, ca.fn)
 				fired = true
 				break
